@@ -174,9 +174,9 @@ fn run_property(root: &str, prop: &Property, others: &[Property], tier: Tier, se
     // 3. generated search
     let mode = if prop.panic_is_violation { Mode::PanicIsViolation } else { Mode::Normal };
     let parts: Vec<&Box<dyn PartDyn>> = prop.parts.iter().collect();
-    let mut rep = run_parts(&parts, tier, seed, mode, known, 1.0);
+    let mut rep = run_parts(&parts, tier, seed, mode, known, 1.0, &prop.min_class_fraction);
     let mut sweep_note = json!(null);
-    if prop.panic_is_violation && rep.stats.failure.is_none() {
+    if prop.id == "C07" && rep.stats.failure.is_none() {
         // C07 also sweeps every other property's generator with the oracle "no library panic"
         let mut swept = Vec::new();
         for o in others {
@@ -185,7 +185,7 @@ fn run_property(root: &str, prop: &Property, others: &[Property], tier: Tier, se
                 continue;
             }
             let scale = if tier == Tier::Quick { 0.1 } else { 0.05 };
-            let mut r = run_parts(&ps, tier, seed ^ 0xc07, Mode::PanicOnly, known, scale);
+            let mut r = run_parts(&ps, tier, seed ^ 0xc07, Mode::PanicOnly, known, scale, &[]);
             swept.push(json!({"generator_of": o.id, "evaluations": r.stats.evals}));
             let fail = r.stats.failure.take();
             rep.stats.evals += r.stats.evals;
@@ -223,6 +223,11 @@ fn run_property(root: &str, prop: &Property, others: &[Property], tier: Tier, se
                     println!("{}", l);
                 }
                 println!("failure in part {} (shard {}): {}", f.part, f.shard, f.message);
+                if let FailKind::LibPanic(p) = &f.kind {
+                    if std::env::var("RQV_BT").is_ok() {
+                        println!("{}", p.bt);
+                    }
+                }
                 println!("VIOLATION property={} replay={}", prop.id, path);
                 return 1;
             }
@@ -231,13 +236,9 @@ fn run_property(root: &str, prop: &Property, others: &[Property], tier: Tier, se
     // 4. generator health
     let mut health_fail = false;
     if rep.stats.evals > 0 {
-        for (class, min) in &prop.min_class_fraction {
-            let n = *rep.stats.classes.get(class).unwrap_or(&0);
-            let frac = n as f64 / rep.stats.evals as f64;
-            if frac < *min {
-                println!("GENERATOR-HEALTH property={} class {:?} has fraction {:.4} < required {:.4}: inconclusive", prop.id, class, frac, min);
-                health_fail = true;
-            }
+        for h in &rep.health {
+            println!("GENERATOR-HEALTH property={} {}: inconclusive", prop.id, h);
+            health_fail = true;
         }
         if rep.stats.discarded_panics as f64 > 0.05 * rep.stats.evals as f64 {
             println!("GENERATOR-HEALTH property={} {} of {} cases discarded by library panics: inconclusive", prop.id, rep.stats.discarded_panics, rep.stats.evals);
